@@ -48,6 +48,10 @@ Forms == /\ ~done
             \/ \E exh \in {"false", "omitted"} : \E n \in {5, 8, 12} :
                  e' = [name |-> "E", n |-> n, exh |-> exh, variants |->
                          [k \in 1..8 |-> LET x == <<1, 16, 6, 21, 10, 8, 18, 28>>[k] IN V(k, DSeq(x, n + 1), "none", IF x = 10 THEN "lit" ELSE "suf")]]
+            \/ \E exh \in {"false", "conditional"} : \E n \in {5, 8} : \E ord \in {1, 2} :
+                 e' = [name |-> "E", n |-> n, exh |-> exh, variants |->
+                         [k \in 1..4 |-> LET x == IF ord = 1 THEN <<18, 28, 10, 3>>[k] ELSE <<3, 28, 18, 10>>[k] IN
+                                         V(k, DSeq(x, n + 1), "none", IF x = 10 THEN "lit" ELSE "suf")]]
          /\ done' = TRUE
 
 (* cfg-gated variants: a gated extra value, or two variants sharing a value under exclusive gates *)
